@@ -1033,7 +1033,7 @@ func makeMapArshaler(t reflect.Type) *arshaler {
 					errUnmarshal = cmp.Or(errUnmarshal, err)
 					continue
 				}
-				if k.Kind() == reflect.Interface && !k.IsNil() && !k.Elem().Type().Comparable() {
+				if k.Kind() == reflect.Interface && !k.IsNil() && !k.Elem().Comparable() {
 					err := newUnmarshalErrorAfter(dec, t, fmt.Errorf("invalid incomparable key type %v", k.Elem().Type()))
 					if !uo.Flags.Get(jsonflags.ReportErrorsWithLegacySemantics) {
 						return err
